@@ -125,6 +125,8 @@ pub struct Content {
     pub comment_texts: Vec<String>,
     /// comments held by the header (ItemHeaderDoc) of an item list whose first item is a use/mod item
     pub n_header_comment_before_use: usize,
+    /// a `macro` declaration item occurs
+    pub has_macro_decl: bool,
 }
 
 struct Walker<'a> {
@@ -142,6 +144,7 @@ struct Walker<'a> {
     in_trailing: bool,
     comment_texts: Vec<String>,
     n_header_comment_before_use: usize,
+    has_macro_decl: bool,
 }
 
 /// The prefix (slashes, exclamation marks) and the whitespace-separated words of one comment line.
@@ -414,27 +417,13 @@ impl<'a> Walker<'a> {
             self.n_tokens += 1;
             self.out.push(Item::Tok(format!("{:?}:{}", kind, n.get_text(db))));
         } else {
+            if kind == SyntaxKind::ItemMacroDeclaration {
+                self.has_macro_decl = true;
+            }
             self.out.push(Item::Open(format!("{kind:?}")));
             self.children(n.get_children(db));
             self.out.push(Item::Close);
         }
-    }
-}
-
-/// The code tokens below `n` (trivia skipped), separated by single spaces.
-fn code_text<'a>(db: &'a SimpleParserDatabase, n: &SyntaxNode<'a>, out: &mut String) {
-    if n.kind(db) == SyntaxKind::Trivia {
-        return;
-    }
-    if n.text(db).is_some() {
-        if !is_trivia_token(n.kind(db)) {
-            out.push_str(n.get_text(db));
-            out.push(' ');
-        }
-        return;
-    }
-    for c in n.get_children(db) {
-        code_text(db, c, out);
     }
 }
 
@@ -455,17 +444,6 @@ fn has_glued_comment<'a>(db: &'a SimpleParserDatabase, n: &SyntaxNode<'a>) -> bo
         return false;
     }
     n.get_children(db).iter().any(|c| has_glued_comment(db, c))
-}
-
-fn is_trivia_token(k: SyntaxKind) -> bool {
-    matches!(
-        k,
-        SyntaxKind::TokenWhitespace
-            | SyntaxKind::TokenNewline
-            | SyntaxKind::TokenSingleLineComment
-            | SyntaxKind::TokenSingleLineDocComment
-            | SyntaxKind::TokenSingleLineInnerComment
-    )
 }
 
 /// Token trees (macro arguments): the formatter formats legacy macro arguments as an argument
@@ -528,6 +506,7 @@ pub fn content<'a>(db: &'a SimpleParserDatabase, root: &SyntaxNode<'a>, cfg: Cfg
         in_trailing: false,
         comment_texts: vec![],
         n_header_comment_before_use: 0,
+        has_macro_decl: false,
     };
     w.node(root);
     let (full, d) = drop_token_tree_trailing_commas(w.out);
@@ -541,6 +520,7 @@ pub fn content<'a>(db: &'a SimpleParserDatabase, root: &SyntaxNode<'a>, cfg: Cfg
         n_trailing_comments: w.n_trailing_comments,
         comment_texts: w.comment_texts,
         n_header_comment_before_use: w.n_header_comment_before_use,
+        has_macro_decl: w.has_macro_decl,
     }
 }
 
@@ -585,6 +565,12 @@ pub struct Verdict {
 
 /// Decides C11 for one (text, config) on the real implementation.
 pub fn check(text: &str, cfg: Cfg) -> Verdict {
+    check_tampered(text, cfg, None)
+}
+
+/// The oracle with the formatter's answer replaced by `tamper(answer)` (self-test of the
+/// oracle's sensitivity: every tampering must be reported, and not as a known finding).
+pub fn check_tampered(text: &str, cfg: Cfg, tamper: Option<&dyn Fn(&str) -> Option<String>>) -> Verdict {
     let mut v = Verdict { parsed: false, fails: vec![], out: String::new(), stats: json!({}) };
     let r = catch(|| {
         let db = SimpleParserDatabase::default();
@@ -594,9 +580,9 @@ pub fn check(text: &str, cfg: Cfg) -> Verdict {
             return None;
         }
         let c_in = content(db, &root, cfg);
-        Some((c_in.full, c_in.n_tokens, c_in.n_comments, c_in.n_comment_words, c_in.n_opt_commas, c_in.n_use_items, c_in.n_trailing_comments, c_in.comment_texts, c_in.n_header_comment_before_use))
+        Some((c_in.full, c_in.n_tokens, c_in.n_comments, c_in.n_comment_words, c_in.n_opt_commas, c_in.n_use_items, c_in.n_trailing_comments, c_in.comment_texts, c_in.n_header_comment_before_use, c_in.has_macro_decl))
     });
-    let (in_items, n_tokens, n_comments, n_cw, n_oc, n_use, n_trail_in, cm_in, hdr_in) = match r {
+    let (in_items, n_tokens, n_comments, n_cw, n_oc, n_use, n_trail_in, cm_in, hdr_in, has_macro) = match r {
         Ok(Some(x)) => x,
         Ok(None) => return v,
         Err(m) => {
@@ -612,13 +598,23 @@ pub fn check(text: &str, cfg: Cfg) -> Verdict {
         let (root, _) = db.parse_virtual_with_diagnostics(text);
         get_formatted_file(&db, &root, cfg.to_config())
     });
-    let out1 = match f1 {
+    let mut out1 = match f1 {
         Ok(s) => s,
         Err(m) => {
             v.fails.push(("panic-format", m, String::new()));
             return v;
         }
     };
+    if let Some(t) = tamper {
+        match t(&out1) {
+            Some(s) => out1 = s,
+            None => {
+                v.stats = json!({"tamper_not_applicable": true});
+                return v;
+            }
+        }
+    }
+    let out1 = out1;
     v.out = out1.clone();
     // (a) + content of the output + f(f(t))
     let r2 = catch(|| {
@@ -640,14 +636,20 @@ pub fn check(text: &str, cfg: Cfg) -> Verdict {
         }
     };
     // ---- signatures of the known root causes (see known_findings.txt, property C11) ----
-    let bare_prefix_ws = |l: &str| -> bool {
-        let t = l.trim_end();
-        t.len() < l.len() && !t.trim_start().is_empty() && t.trim_start().chars().all(|c| c == '/' || c == '!')
-            && t.trim_start().starts_with("//")
-    };
-    let k1_present = out1.lines().any(bare_prefix_ws);
-    let k1 = "C11-K1-blank-comment-line";
-    let k2 = "C11-K2-word-read-as-prefix";
+    // (K1 blank comment line and K2 word read as prefix are fixed in /repo: no recogniser, a
+    // recurrence is a plain violation; their inputs are kept in corpus/C11 as regressions)
+    // K3: a comment that stood on its own line is emitted behind the previous token on the same
+    //     line (glued `a +// c`, with one space `let x = // c`, `fn f() { // c`); after re-parsing it
+    //     is a trailing comment: the next pass adds a space, drops a blank line or re-breaks the
+    //     longer line; glued to a `/` operator it even lexes as a doc comment (`8 /// c`).
+    // K4: sorting (with or without merging) moves an item together with its leading blank lines;
+    //     at the new place (after the first item's trivia was taken by merging, or directly behind a
+    //     `//!` header) the next pass does not keep them.
+    // K5: inside a `macro` declaration everything that follows a comment stays on the comment's
+    //     line (`;`, `=> { .. }`): tokens are swallowed by the comment, the output does not parse.
+    // K6: a comment-bearing use/mod item sorted to the first place of its item list (file or module
+    //     body): on re-parsing the comment belongs to the list header (ItemHeaderDoc), the item is
+    //     merged/split by the next pass.
     let k3 = "C11-K3-leading-comment-glued";
     let k4 = "C11-K4-merge-drops-blank-line";
     let k5 = "C11-K5-macro-rule-comment-swallows-semicolon";
@@ -655,7 +657,8 @@ pub fn check(text: &str, cfg: Cfg) -> Verdict {
     let k7 = "C11-K7-fmt-skip-attribute-with-inner-whitespace";
     let k8 = "C11-K8-merge-reorders-equal-use-items";
     // K3 with a `/` operator before the glued comment: `8 /` + `// c` reads as `8` + `/// c`
-    let k3_slash = cm_out.iter().any(|co| {
+    let n_div = |v: &[Item]| v.iter().filter(|x| matches!(x, Item::Tok(t) if t == "TerminalDiv:/")).count();
+    let k3_slash = n_div(&in_items) > n_div(&out_items) && cm_out.iter().any(|co| {
         co.starts_with("///")
             && !cm_in.contains(co)
             && cm_in.iter().any(|ci| {
@@ -683,10 +686,17 @@ pub fn check(text: &str, cfg: Cfg) -> Verdict {
     let (ti, to) = (linear(&si), linear(&so));
     // K5: inside a `macro` declaration the code that follows a comment stays on the comment's line:
     // a comment of the output is a comment of the input with code appended
-    let k5_match = text.contains("macro")
+    let k5_match = has_macro
         && cm_out.iter().any(|co| {
             !cm_in.contains(co)
-                && cm_in.iter().any(|ci| co.len() > ci.len() && co.starts_with(ci.as_str()) && !co[ci.len()..].trim().is_empty())
+                && cm_in.iter().any(|ci| {
+                    co.len() > ci.len()
+                        && co.starts_with(ci.as_str())
+                        && !co[ci.len()..].trim().is_empty()
+                        // the input comment has text of its own (an empty `///` line is a prefix of
+                        // every doc comment)
+                        && !ci.trim_start_matches(['/', '!']).trim().is_empty()
+                })
         });
     if let Some(d) = derr {
         let sig = if k5_match { k5.to_string() } else if k3_slash { k3.to_string() } else { String::new() };
@@ -698,13 +708,7 @@ pub fn check(text: &str, cfg: Cfg) -> Verdict {
         while i < l1.len() && i < l2.len() && l1[i] == l2[i] {
             i += 1;
         }
-        let mut sig = vec![];
-        // K1: f(f(t)) is f(t) with the bare-prefix lines right-trimmed
-        let fixed: Vec<String> =
-            l1.iter().map(|l| if bare_prefix_ws(l) { l.trim_end().to_string() } else { l.to_string() }).collect();
-        if k1_present && fixed.iter().map(|x| x.as_str()).eq(l2.iter().copied()) {
-            sig.push(k1);
-        }
+        let mut sig: Vec<&str> = vec![];
         // K4: sorting/merging is on, only blank lines in front of use items disappear
         let nb = |ls: &[&str]| -> Vec<String> { ls.iter().filter(|l| !l.trim().is_empty()).map(|l| l.to_string()).collect() };
         if sig.is_empty() && cfg.reorders() && nb(&l1) == nb(&l2) {
@@ -752,8 +756,18 @@ pub fn check(text: &str, cfg: Cfg) -> Verdict {
         if sig.is_empty() && (glued || n_trail_out > n_trail_in || k3_slash) {
             sig.push(k3);
         }
-        if sig.is_empty() && k1_present {
-            sig.push(k1);
+        // ... or only on the second pass: the line was broken after the token on the first pass
+        // (comment on the next line), the second pass then pulls the comment behind the token
+        if sig.is_empty() {
+            let n_trail_out2 = catch(|| {
+                let db = SimpleParserDatabase::default();
+                let (root, _) = db.parse_virtual_with_diagnostics(&out2);
+                content(&db, &root, cfg).n_trailing_comments
+            })
+            .unwrap_or(0);
+            if n_trail_out2 > n_trail_out {
+                sig.push(k3);
+            }
         }
         v.fails.push((
             "not-idempotent",
@@ -783,42 +797,8 @@ pub fn check(text: &str, cfg: Cfg) -> Verdict {
             mo.sort();
         }
         if mi != mo {
-            // K1: the only difference is additional empty comment lines;
-            // K2: the words agree once the prefix characters `/` and `!` that moved between a
-            //     line's prefix and its first word are ignored (tags dropped, leading `/` `!`
-            //     stripped from every word)
-            let norm = |v: &[Item], strip: bool| -> Vec<String> {
-                let mut r: Vec<String> = v
-                    .iter()
-                    .filter_map(|x| match x {
-                        Item::Cw(_, w) if w.is_empty() => None,
-                        Item::Cw(t, w) => {
-                            if strip {
-                                let z = w.trim_start_matches(['/', '!']).to_string();
-                                if z.is_empty() { None } else { Some(z) }
-                            } else {
-                                Some(format!("{t} {w}"))
-                            }
-                        }
-                        _ => None,
-                    })
-                    .collect();
-                if cfg.reorders() {
-                    r.sort();
-                }
-                r
-            };
-            let empties = |v: &[Item]| v.iter().filter(|x| matches!(x, Item::Cw(_, w) if w.is_empty())).count();
-            let more_empty = empties(&mo) > empties(&mi);
-            let mut sig = vec![];
-            if more_empty && norm(&mi, false) == norm(&mo, false) {
-                sig.push(k1);
-            } else if norm(&mi, true) == norm(&mo, true) && (more_empty || empties(&mo) == empties(&mi) || !k1_present) {
-                if more_empty {
-                    sig.push(k1);
-                }
-                sig.push(k2);
-            } else if k5_match {
+            let mut sig: Vec<&str> = vec![];
+            if k5_match {
                 sig.push(k5);
             } else if k3_slash {
                 sig.push(k3);
@@ -835,4 +815,96 @@ pub fn check(text: &str, cfg: Cfg) -> Verdict {
         "max_out_line": out1.lines().map(|l| l.chars().count()).max().unwrap_or(0),
     });
     v
+}
+
+// ---------------- self-test of the oracle ----------------
+fn code_part(line: &str) -> &str {
+    match line.find("//") {
+        Some(i) => &line[..i],
+        None => line,
+    }
+}
+fn plain(line: &str) -> bool {
+    !line.contains('"') && !line.contains('\'')
+}
+
+pub const TAMPERS: [&str; 6] =
+    ["drop-semicolon", "swap-arguments", "drop-comment-word", "comment-becomes-doc", "trailing-space", "drop-comma-of-1-tuple"];
+
+/// Property-breaking edits of a formatter answer (None = not applicable to this text).
+pub fn tamper(kind: &str, out: &str) -> Option<String> {
+    let lines: Vec<&str> = out.lines().collect();
+    let rebuild = |k: usize, new_line: String| -> String {
+        let mut v: Vec<String> = lines.iter().map(|l| l.to_string()).collect();
+        v[k] = new_line;
+        v.join("\n") + "\n"
+    };
+    match kind {
+        "drop-semicolon" => {
+            let k = lines.iter().position(|l| plain(l) && code_part(l).trim_end().ends_with(';') && code_part(l).contains("let "))?;
+            let c = code_part(lines[k]);
+            let i = c.rfind(';')?;
+            Some(rebuild(k, format!("{}{}", &lines[k][..i], &lines[k][i + 1..])))
+        }
+        "swap-arguments" => {
+            for (k, l) in lines.iter().enumerate() {
+                if !plain(l) {
+                    continue;
+                }
+                let c = code_part(l);
+                // `(a, b)` with two different identifiers
+                if let Some(i) = c.find('(') {
+                    let rest = &c[i + 1..];
+                    if let Some(j) = rest.find(')') {
+                        let inner = &rest[..j];
+                        let parts: Vec<&str> = inner.split(", ").collect();
+                        let ident = |s: &str| !s.is_empty() && s.chars().all(|ch| ch.is_alphanumeric() || ch == '_');
+                        if parts.len() == 2 && ident(parts[0]) && ident(parts[1]) && parts[0] != parts[1] {
+                            let new_inner = format!("{}, {}", parts[1], parts[0]);
+                            return Some(rebuild(k, format!("{}({}{}", &l[..i], new_inner, &l[i + 1 + j..])));
+                        }
+                    }
+                }
+            }
+            None
+        }
+        "drop-comment-word" => {
+            let k = lines.iter().position(|l| {
+                let t = l.trim_start();
+                t.starts_with("// ") && t.split_whitespace().count() >= 3
+            })?;
+            let l = lines[k].trim_end();
+            let i = l.rfind(' ')?;
+            Some(rebuild(k, l[..i].to_string()))
+        }
+        "comment-becomes-doc" => {
+            let k = lines.iter().position(|l| l.trim_start().starts_with("// "))?;
+            Some(rebuild(k, lines[k].replacen("// ", "/// ", 1)))
+        }
+        "trailing-space" => {
+            let k = lines.iter().position(|l| !l.trim().is_empty() && !l.trim_start().starts_with("//"))?;
+            Some(rebuild(k, format!("{}  ", lines[k])))
+        }
+        "drop-comma-of-1-tuple" => {
+            for (k, l) in lines.iter().enumerate() {
+                if plain(l) && !l.contains('!') && !l.contains('$') && !out.contains("macro ") {
+                    // a one-element tuple `(x,)`: the comma is not optional there
+                    let c = code_part(l);
+                    if let Some(i) = c.find(",)") {
+                        let before = &c[..i];
+                        if let Some(j) = before.rfind('(') {
+                            let inner = &before[j + 1..];
+                            let ident = !inner.is_empty() && inner.chars().all(|ch| ch.is_alphanumeric() || ch == '_');
+                            let prev_is_call = before[..j].chars().last().map(|ch| ch.is_alphanumeric() || ch == '_' || ch == '>').unwrap_or(false);
+                            if ident && !prev_is_call {
+                                return Some(rebuild(k, format!("{}{}", &l[..i], &l[i + 1..])));
+                            }
+                        }
+                    }
+                }
+            }
+            None
+        }
+        _ => None,
+    }
 }
